@@ -66,6 +66,10 @@ class FlowGen(object):
         if x < 0.22:
             return ("un", "NOT", ("par", c))
         if x < 0.30:
+            if r.random() < 0.4:
+                # two bare numbers joined by AND / OR: a bitwise operation whose result is the condition (1 AND 2 is false)
+                b2 = ("var", r.choice([v for v in VARS if v != a[1]]))
+                return ("bin", r.choice(["AND", "AND", "OR"]), a, b2 if r.random() < 0.7 else ("bin", "+", b2, n(1)))
             return a                      # bare numeric condition
         if x < 0.35:
             return ("par", c)
